@@ -67,9 +67,9 @@ def run_growth(ctx):
     except RuntimeError as e:
         crashed = str(e)
     if crashed:
-        # the only way this growth check reports a violation: the real daemon code died while executing a command
-        ctx.violation("GROWTH:commands:daemon-crash", "the in-process daemon crashed while replaying generated read/write/find "
-                      "sessions: " + crashed[-600:], {"family": "growth-commands", "error": crashed[-2000:]})
+        # no listed property is about this: a crash of the real daemon code is reported as a note, never as a violation
+        ctx.drift.append("GROWTH commands: the in-process daemon crashed while replaying generated read/write/find sessions: "
+                         + crashed[-600:])
         return {"crashed": True}
     rr = recs.read_ndjson(rf)
     res, bad = recs.judge(ctx, "CommandsJudge", "CommandsJudge.cfg", rf, workers=jobs, heap="6g", timeout=1200,
@@ -91,8 +91,12 @@ def run_growth(ctx):
         cm = sessions[r["s"] - 1]["cmds"]
         e = classes.setdefault(cls, {"count": 0, "witness": None})
         e["count"] += 1
-        if e["witness"] is None or len(cm) < e["witness"]["len"]:
-            e["witness"] = {"len": len(cm), "world_family": worlds[r["w"] - 1]["fam"],
+        last = cm[k - 1]
+        telling = (cls.endswith("parameters") and last.get("i")) or (cls.endswith("destination") and last.get("d")) or \
+            not (cls.endswith("parameters") or cls.endswith("destination"))
+        rank = (0 if telling else 1, len(cm))
+        if e["witness"] is None or rank < e["witness"]["rank"]:
+            e["witness"] = {"rank": rank, "world_family": worlds[r["w"] - 1]["fam"],
                             "definitions": _txt(worlds[r["w"] - 1]["csv"]).strip().split("\n"),
                             "session": ["%s -> %r bus=%s" % (_cmd_text(c), _txt(o["a"])[:80], o["bus"]) for c, o in zip(cm[:k], r["o"][:k])]}
     drift = [v for v in res["vf"] if v[1] == "DRIFT"]
@@ -132,4 +136,4 @@ def run(ctx):
     cov = run_growth(ctx)
     cov.setdefault("samples", [cov.pop("sample", None)])
     ctx.coverage = cov
-    ctx.assumptions = ["growth check: no listed property; disagreements are drift notes, only a daemon crash is a violation"]
+    ctx.assumptions = ["growth check: no listed property; disagreements are drift notes, nothing here is a violation"]
